@@ -312,6 +312,18 @@ func (x *ctx) offer(head string, parts []string, s Spec, seats uint32, detail st
 	x.ws.best[sig] = &witness{rank: rank, head: head, parts: parts, v: mc.Violation{Sig: sig, Config: x.c.Name, Input: s, Detail: detail}}
 }
 
+// offerRaw is offer for the dimensions whose input is not a Spec (look-back, history): rank orders the witnesses
+// of one signature (smallest kept).
+func (x *ctx) offerRaw(sig, head string, parts []string, rank string, v mc.Violation) {
+	v.Sig = sig
+	x.ws.mu.Lock()
+	defer x.ws.mu.Unlock()
+	if w, ok := x.ws.best[sig]; ok && w.rank <= rank {
+		return
+	}
+	x.ws.best[sig] = &witness{rank: rank, head: head, parts: parts, v: v}
+}
+
 // flush reports one violation per signature.  A header that needs several
 // independent root causes at once (pairs of dimensions are explored) gets a
 // joint signature; it is reported only if some part of it is not reported on
@@ -494,7 +506,7 @@ func (x *ctx) check(s Spec, allPaths bool) {
 	}
 }
 
-func describe(s Spec) string {
+func describe(s interface{}) string {
 	b, _ := json.Marshal(s)
 	return string(b)
 }
@@ -589,8 +601,11 @@ func (x *ctx) product(ds []dim, seen map[string]bool, out *[]job) {
 	}
 }
 
-// validate: the fixture is valid only if the unmodified honest header (real
-// PackVotes) is accepted on every path and the oracle agrees.
+// validate: the unmodified honest header (real PackVotes) must be accepted on every path and by the oracle.
+// The oracle and real BLS verification of the aggregate are independent evidence that the header is what it is
+// meant to be; a verifier entry point that rejects it then breaks the property's honest side and is reported
+// (it used to be booked as an invalid fixture, which let a verifier that reads the wrong look-back header pass
+// as "nothing explored").  Only an oracle rejection is a harness error.
 func (x *ctx) validate() bool {
 	c, r := x.c, x.r
 	h, err := c.HonestHeader()
@@ -598,21 +613,6 @@ func (x *ctx) validate() bool {
 		r.HarnessError("honest header: " + err.Error())
 		return false
 	}
-	ok := true
-	for _, p := range []pathRes{
-		runPath("VerifyHeader", func() error { return VerifyHeader(c, h) }),
-		runPath("VerifySeal", func() error { return VerifySeal(c, h) }),
-		runPath("VerifySideChainHeader", func() error { return VerifySideChain(c, h) }),
-	} {
-		if !p.Accept {
-			r.HarnessError(fmt.Sprintf("config %s round %d: the unmodified honest header is not accepted by %s: %s%s — fixture invalid, nothing explored", c.Name, c.Round, p.Path, p.Err, p.Panic))
-			ok = false
-		}
-	}
-	if !ok {
-		return false
-	}
-	r.Count("honest_header_accepted_on_all_paths", 1)
 	scn := ""
 	if c.certPair != nil {
 		scn = "cert"
@@ -622,16 +622,43 @@ func (x *ctx) validate() bool {
 		r.HarnessError(fmt.Sprintf("honest spec does not build: %v %+v", err, e))
 		return false
 	}
-	for _, p := range e.Paths {
-		if !p.Accept {
-			r.HarnessError(fmt.Sprintf("config %s round %d: honest spec rejected by %s: %s%s", c.Name, c.Round, p.Path, p.Err, p.Panic))
-			return false
-		}
-	}
 	if !e.O.Accept {
-		r.HarnessError(fmt.Sprintf("config %s round %d: oracle rejects the honest spec: %s", c.Name, c.Round, e.O))
+		r.HarnessError(fmt.Sprintf("config %s round %d: oracle rejects the honest spec: %s — fixture invalid, nothing explored", c.Name, c.Round, e.O))
 		return false
 	}
+	if t := cryptoCheck(c, e.F, true); t != "" {
+		r.HarnessError(fmt.Sprintf("config %s round %d: honest spec: %s — fixture invalid, nothing explored", c.Name, c.Round, t))
+		return false
+	}
+	var rej []pathRes
+	for _, p := range []pathRes{
+		runPath("VerifyHeader", func() error { return VerifyHeader(c, h) }),
+		runPath("VerifySeal", func() error { return VerifySeal(c, h) }),
+		runPath("VerifySideChainHeader", func() error { return VerifySideChain(c, h) }),
+	} {
+		if !p.Accept {
+			p.Path += " (header packed by the real PackVotes)"
+			rej = append(rej, p)
+		}
+	}
+	for _, p := range e.Paths {
+		if !p.Accept {
+			rej = append(rej, p)
+		}
+	}
+	if len(rej) > 0 {
+		var names, errs []string
+		for _, p := range rej {
+			names = append(names, p.Path)
+			errs = append(errs, p.Path+": "+p.Err+p.Panic)
+		}
+		r.Count("VIOLATING_CASES_unmodified_honest_header_rejected", 1)
+		x.offerRaw("rejected honest header "+pathGroup(names)+": the unmodified header of the honest proposer with every entitled member's precommit", "", nil, "00|"+c.Name,
+			mc.Violation{Config: c.Name, Input: x.honestFor(scn), Detail: fmt.Sprintf("the real verifier rejects the unmodified honest header (%s); the independent calculator accepts it (%s) and its aggregate verifies with the BLS library.\n%s\n%s",
+				strings.Join(errs, "; "), e.O, x.context(), x.lbContext())})
+		return false
+	}
+	r.Count("honest_header_accepted_on_all_paths", 1)
 	return true
 }
 
@@ -741,8 +768,29 @@ func Run(r *mc.Run) {
 			"proposer": c.Proposer.Name, "set": c.describeSet(), "online_chamber_stake": c.Total.String(),
 			"precommit_seats_of_entitled_members": c.SeatCounts(c.HonestRI), "quorum": c.Quorum(),
 			"subset_weights_sorted": c.subsetWeights(), "subset_with_weight_exactly_quorum_mask": c.ExactQuorumMask}
-		if !x.validate() {
+		fx := fixtures[name].(map[string]interface{})
+		sets := map[string]string{}
+		for vn, vw := range c.Views {
+			sets[vn] = vw.describe()
+		}
+		fx["validator_sets_by_header (stake = look-back set; seed / parent / own / other / certstake = the set that header commits to)"] = sets
+		var eps []string
+		for _, e := range c.entries(true) {
+			eps = append(eps, e.Name)
+		}
+		fx["entry_points"] = eps
+		valid := x.validate()
+		// look-back separation: cheap, and it names the wrong look-back header when the honest header is rejected
+		lbHere := r.Quick() || (p.ver == params.YouCurrentVersion)
+		if lbHere && !r.Expired() {
+			x.exploreLB()
+		}
+		if !valid {
 			continue
+		}
+		histHere := p.net == tc && p.ver == params.YouCurrentVersion && (p.cert || !strings.HasPrefix(p.cfg, "b"))
+		if histHere && !r.Expired() {
+			x.exploreHist()
 		}
 		if p.cert {
 			var jobs []job
@@ -791,6 +839,18 @@ func (c *Config) subsetWeights() []uint32 {
 func Replay(r *mc.Run, v *mc.Violation) {
 	Quiet()
 	bs, _ := json.Marshal(v.Input)
+	var kind struct {
+		Kind string `json:"kind"`
+	}
+	json.Unmarshal(bs, &kind)
+	switch kind.Kind {
+	case "lookback":
+		replayLB(r, v, bs)
+		return
+	case "history":
+		replayHist(r, v, bs)
+		return
+	}
 	var s Spec
 	if err := json.Unmarshal(bs, &s); err != nil {
 		fmt.Println("bad replay input:", err)
@@ -834,6 +894,93 @@ func Replay(r *mc.Run, v *mc.Violation) {
 		w.v.Sig = v.Sig // the replay confirms the recorded failure
 		r.Report(w.v)
 	}
+}
+
+func replayCtx(r *mc.Run, net uint64, cfg string, ver uint64, cert bool) *ctx {
+	params.InitNetworkId(net)
+	var c *Config
+	var err error
+	if cert {
+		c, err = NewCertConfig(cfg, params.YouVersion(ver))
+	} else {
+		c, err = NewConfig(cfg, params.YouVersion(ver))
+	}
+	if err != nil {
+		fmt.Println("config:", err)
+		return nil
+	}
+	return &ctx{r: r, c: c, ws: &witnesses{best: map[string]*witness{}}}
+}
+
+func (x *ctx) replayReport(r *mc.Run, v *mc.Violation) {
+	for sig, w := range x.ws.best {
+		fmt.Println("signature now:", sig)
+		if sig != v.Sig {
+			continue
+		}
+		r.Report(w.v)
+	}
+}
+
+func replayLB(r *mc.Run, v *mc.Violation, bs []byte) {
+	var s LBSpec
+	if err := json.Unmarshal(bs, &s); err != nil {
+		fmt.Println("bad replay input:", err)
+		return
+	}
+	x := replayCtx(r, s.Net, s.Cfg, s.Ver, s.Cert)
+	if x == nil {
+		return
+	}
+	fmt.Println(describeLB(s))
+	fmt.Println(x.context())
+	fmt.Println(x.lbContext())
+	e, err := x.evalLB(s)
+	if err != nil {
+		fmt.Println("build:", err)
+		return
+	}
+	if e.F.Skip != "" {
+		fmt.Println("variant unavailable:", e.F.Skip)
+		return
+	}
+	for _, p := range e.Paths {
+		fmt.Printf("  %-40s accept=%v err=%q panic=%q\n", p.Path, p.Accept, p.Err, p.Panic)
+	}
+	fmt.Println("oracle:", e.O)
+	x.checkLB(s)
+	x.replayReport(r, v)
+}
+
+func replayHist(r *mc.Run, v *mc.Violation, bs []byte) {
+	var s HSpec
+	if err := json.Unmarshal(bs, &s); err != nil {
+		fmt.Println("bad replay input:", err)
+		return
+	}
+	x := replayCtx(r, s.Net, s.Cfg, s.Ver, s.Cert)
+	if x == nil {
+		return
+	}
+	hs, err := x.newHist()
+	if err != nil {
+		fmt.Println("history:", err)
+		return
+	}
+	res, err := hs.run(s.Ops)
+	if err != nil {
+		fmt.Println("history:", err)
+		return
+	}
+	fmt.Println("one Server instance, in this order:")
+	fmt.Println(hs.describeOps(s.Ops, res))
+	if n := len(s.Ops); n > 0 {
+		fr, _ := hs.freshVerdict(s.Ops[n-1])
+		fmt.Printf("last header on an instance that verified nothing else: accept=%v err=%q\n", fr.Accept, fr.Err)
+	}
+	fmt.Println(x.context())
+	hs.checkSeq(s.Ops)
+	x.replayReport(r, v)
 }
 
 // nonBls drives the ECDSA branch of verifyVotes (cp.EnableBls == false) for
